@@ -324,14 +324,8 @@ fn check_mapping_empty(
             return Ok(true);
         }
     }
-    if let Some(idx) = &pos.indexed_properties {
-        if idx.key.is_empty(ctx)? {
-            return Ok(true);
-        }
-        if idx.value.is_empty(ctx)? {
-            return Ok(true);
-        }
-    }
+    // An index signature whose key or value type is empty does not make the object type empty:
+    // `{ [k: string]: never }` still contains the object without extra properties.
 
     // 2. If no negs, not empty (unless pos is empty, checked above)
     // If we have no negative constraints left to subtract, and `pos` is not empty,
